@@ -1508,6 +1508,10 @@ def build(unit, repo_root, diff=False, canary=False, extra_stubs=()):
         if not header_done:
             out.add('verus! {', {'k': 'gen'})
             header_done = True
+            # every unit: the meaning of `==` on String / f64 however it is written (spec/std_eq.rs)
+            p = os.path.join(VERIF, 'spec', 'std_eq.rs')
+            out.add(open(p).read(), (lambda p: (lambda k: {'k': 'spec', 'file': os.path.relpath(p, VERIF), 'line': k + 1}))(p))
+            info['includes'].append(os.path.relpath(p, VERIF))
         if cmd == 'include':
             p = os.path.join(VERIF, parts[1])
             txt = open(p).read()
